@@ -48,6 +48,9 @@ fn build_schema() -> Sch {
     sb.add_bytes_field("y", INDEXED);
     sb.add_ip_addr_field("ip", INDEXED);
     sb.add_facet_field("fa", FacetOptions::default());
+    // two JSON fields indexed with positions: the same path may occur in both fields of a document
+    sb.add_json_field("j2", JsonObjectOptions::default().set_indexing_options(
+        TextFieldIndexing::default().set_tokenizer("whitespace").set_index_option(IndexRecordOption::WithFreqsAndPositions)));
     sb.add_json_field("j", JsonObjectOptions::default().set_indexing_options(
         TextFieldIndexing::default().set_tokenizer("whitespace").set_index_option(IndexRecordOption::WithFreqsAndPositions)));
     Sch { schema: sb.build(), id }
@@ -141,7 +144,8 @@ fn build_doc(s: &Sch, id: u64, d: &Value) -> TantivyDocument {
         let segs: Vec<&str> = v.as_array().unwrap().iter().map(|x| x.as_str().unwrap()).collect();
         doc.add_facet(f("fa"), Facet::from_path(segs));
     }
-    if let Some(streams) = d.get("j").and_then(|x| x.as_array()) {
+    for jf in ["j", "j2"] {
+      if let Some(streams) = d.get(jf).and_then(|x| x.as_array()) {
         // a leaf may name the JSON value ("obj": 0, 1, 2 ...) of the document it belongs to: the document
         // then holds several values for the JSON field, which share paths
         let mut objs: Vec<Vec<(String, OwnedValue)>> = vec![];
@@ -164,9 +168,10 @@ fn build_doc(s: &Sch, id: u64, d: &Value) -> TantivyDocument {
         }
         for obj in objs {
             if !obj.is_empty() {
-                doc.add_field_value(f("j"), &OwnedValue::Object(obj));
+                doc.add_field_value(f(jf), &OwnedValue::Object(obj));
             }
         }
+      }
     }
     doc
 }
@@ -189,7 +194,7 @@ fn key_of(field: &str, b: &[u8]) -> String {
         "fa" => {
             if b.is_empty() { "/".to_string() } else { String::from_utf8(b.to_vec()).map(|s| s.split('\u{0}').map(|p| format!("/{p}")).collect::<String>()).unwrap_or_else(|_| bad()) }
         }
-        "j" => {
+        "j" | "j2" => {
             let Some(z) = b.iter().position(|x| *x == 0) else { return bad() };
             let path = String::from_utf8_lossy(&b[..z]).replace('\u{1}', ".");
             if z + 1 >= b.len() {
@@ -209,13 +214,13 @@ fn key_of(field: &str, b: &[u8]) -> String {
 
 fn option_of(field: &str) -> (&'static str, IndexRecordOption) {
     match field {
-        "pos" | "nn" | "j" => ("pos", IndexRecordOption::WithFreqsAndPositions),
+        "pos" | "nn" | "j" | "j2" => ("pos", IndexRecordOption::WithFreqsAndPositions),
         "frq" => ("freq", IndexRecordOption::WithFreqs),
         _ => ("basic", IndexRecordOption::Basic),
     }
 }
 
-const DUMP_FIELDS: &[&str] = &["pos", "frq", "bas", "nn", "raw", "u", "i", "b", "d", "y", "ip", "fa", "j"];
+const DUMP_FIELDS: &[&str] = &["pos", "frq", "bas", "nn", "raw", "u", "i", "b", "d", "y", "ip", "fa", "j", "j2"];
 
 fn dump(tracer: &Tracer, s: &Sch, index: &Index, phase: &str, seeks: &[Value]) {
     let reader: tantivy::IndexReader = index.reader_builder().reload_policy(tantivy::ReloadPolicy::Manual).try_into().expect("reader");
@@ -237,7 +242,7 @@ fn dump(tracer: &Tracer, s: &Sch, index: &Index, phase: &str, seeks: &[Value]) {
                     let ti = stream.value().clone();
                     let key = key_of(fname, &b);
                     // non-text terms of a JSON field carry neither positions nor frequencies (DocIdRecorder): doc ids only
-                    let (oname, opt) = if *fname == "j" && !key.contains("|s:") { ("basic", IndexRecordOption::Basic) } else { (oname, opt) };
+                    let (oname, opt) = if matches!(*fname, "j" | "j2") && !key.contains("|s:") { ("basic", IndexRecordOption::Basic) } else { (oname, opt) };
                     let mut p = inv.read_postings_from_terminfo(&ti, opt)?;
                     let (mut docs, mut tfs, mut poss) = (vec![], vec![], vec![]);
                     let mut d = p.doc();
